@@ -67,25 +67,28 @@ def r1(ctx):
 
 
 def _stop_condition_table(cond):
-    """truth table of a stop condition over (buffered, limit, found), read with the finite interpreter; None if unreadable"""
+    """truth table of a stop condition over (ordered, aggregate, limit, found), read with the finite interpreter; None if
+    unreadable.  is_buffered() = ordered or aggregate, has_ordering() = ordered, has_aggregate_column() = aggregate."""
     import interp
     ids = {x["res"] for x in walk_exprs(cond) if x["k"] == "Path" and x.get("rk") == "Local" and x.get("name") == "self"}
     tbl = {}
-    for buffered in (False, True):
-        for limit in (0, 1, 2, 3):
-            for found in (0, 1, 2, 3, 4):
-                def call(node, recv, args, it, env, buffered=buffered):
-                    if node["k"] == "MCall" and node["m"] == "is_buffered":
-                        return (buffered,)
-                    return None
-                selfv = {"query": {"limit": limit}, "found": found}
-                try:
-                    v = interp.Interp(call=call).run(cond, {i: selfv for i in ids})
-                except interp.Undecided:
-                    return None
-                if not isinstance(v, bool):
-                    return None
-                tbl[(buffered, limit, found)] = v
+    for ordered in (False, True):
+        for aggregate in (False, True):
+            for limit in (0, 1, 2, 3):
+                for found in (0, 1, 2, 3, 4):
+                    def call(node, recv, args, it, env, ordered=ordered, aggregate=aggregate):
+                        m = node.get("m")
+                        if node["k"] == "MCall" and m in ("is_buffered", "has_ordering", "is_ordered", "has_aggregate_column"):
+                            return ({"is_buffered": ordered or aggregate, "has_ordering": ordered, "is_ordered": ordered, "has_aggregate_column": aggregate}[m],)
+                        return None
+                    selfv = {"query": {"limit": limit}, "found": found}
+                    try:
+                        v = interp.Interp(call=call).run(cond, {i: selfv for i in ids})
+                    except interp.Undecided:
+                        return None
+                    if not isinstance(v, bool):
+                        return None
+                    tbl[(ordered, aggregate, limit, found)] = v
     return tbl
 
 
@@ -110,20 +113,20 @@ def r2(ctx):
                 ctx.obligation(False)
                 ctx.violation("early-exit/%s/unreadable" % short(fn, 1), ctx.where(fn, x), "cannot evaluate the stop condition `%s`" % r[:160])
                 continue
-            bad_buf = [k for k, v in tbl.items() if v and k[0]]
-            spec = {k: (not k[0]) and k[1] > 0 and k[1] <= k[2] for k in tbl}
+            bad_buf = [(k[0] or k[1], k[2], k[3], "ordered" if k[0] else "aggregate") for k, v in tbl.items() if v and (k[0] or k[1])]
+            spec = {k: (not (k[0] or k[1])) and k[2] > 0 and k[2] <= k[3] for k in tbl}
             bad = [k for k in tbl if tbl[k] != spec[k]]
             ok = leaves and not bad
             ctx.obligation(ok)
             if bad_buf:
                 ctx.violation("early-exit/%s/buffered" % short(fn, 1), ctx.where(fn, x),
-                              "the search stops at `%s` even when rows are buffered for ORDER BY / aggregation (e.g. limit %d, found %d): "
-                              "the top N of the sorted result needs every row" % (r[:200], bad_buf[0][1], bad_buf[0][2]))
+                              "the search stops at `%s` even when rows are buffered for ORDER BY / aggregation (e.g. an %s query with limit %d, found %d): "
+                              "the top N of the sorted result and every aggregate need every row" % (r[:200], bad_buf[0][3], bad_buf[0][1], bad_buf[0][2]))
             elif not ok:
                 ctx.violation("early-exit/%s/condition" % short(fn, 1), ctx.where(fn, x),
                               "early exit condition `%s` is not `unbuffered && limit > 0 && limit <= found`%s" %
-                              (r[:200], (": differs at (buffered, limit, found) = %s" % (bad[0],)) if bad else ""))
-    ctx.covered("early-exit tests on (limit, found), each evaluated on 2 x 4 x 5 points", n, distinct_keys=["sites:%d" % n], exhaustive=True)
+                              (r[:200], (": differs at (ordered, aggregate, limit, found) = %s" % (bad[0],)) if bad else ""))
+    ctx.covered("early-exit tests on (limit, found), each evaluated on 2 x 2 x 4 x 5 points", n, distinct_keys=["sites:%d" % n], exhaustive=True)
     ctx.floor(n, 2, "limit early-exit sites (directory loop, archive loop)", VISIT_DIR)
 
 
